@@ -410,3 +410,48 @@ def scene_case(draw, theta_max, edges, ncat, *, min_patches=1, max_patches=5, ma
             cat["stale_pid"] = draw(st.lists(st.integers(0, K - 1), min_size=n, max_size=n))
         cats.append(cat)
     return {"base": [float(base[0]), float(base[1])], "spacing": float(spacing), "centers": np.column_stack([cra, cdec]).tolist(), "cats": cats}
+
+
+@st.composite
+def lattice_scene(draw, K, extra=20, ncat=1, edges=None, need_z=(), theta_max=None):
+    """catalogs on K (hundreds of) patch centres laid out on a tangent-plane lattice: per
+    catalog one object next to every centre plus up to ``extra`` more; same layout as
+    scene_case's result.  Base, spacing and the pool of redshifts are drawn by Hypothesis; the
+    bulk (offsets, weights, which redshift) is expanded from a drawn seed with numpy, because
+    thousands of individual draws exceed the size Hypothesis allows for one case."""
+    base = draw(st.one_of(st.sampled_from(BASES), st.tuples(floats(0.0, 2 * math.pi - 1e-9), floats(-1.0, 1.0).map(math.asin))))
+    spacing = draw(loguniform(5e-4, 4e-3)) if theta_max is None else min(theta_max * draw(loguniform(0.5, 3.0)), 0.02)
+    rng = np.random.default_rng(draw(st.integers(0, 2**32 - 1)))
+    cols = int(math.ceil(math.sqrt(K)))
+    cxy = np.array([[(k % cols - cols / 2.0) * spacing, (k // cols - cols / 2.0) * spacing] for k in range(K)])
+    cra, cdec = tangent_to_sky(base, cxy)
+    cats = []
+    for c in range(ncat):
+        n = K + draw(st.integers(0, extra))
+        owner = np.concatenate([np.arange(K), rng.integers(0, K, size=n - K)])
+        xy = cxy[owner] + rng.uniform(-0.3, 0.3, size=(n, 2)) * spacing
+        ra, dec = tangent_to_sky(base, xy)
+        w = None if draw(st.booleans()) else rng.choice([1.0, 2.0, 0.5, 0.25, 3.0], size=n).tolist()
+        z = None
+        if c in need_z:
+            pool = draw(redshift_values(8, edges))
+            z = [pool[i] for i in rng.integers(0, 8, size=n)]
+        cats.append({"ra": list(map(float, ra)), "dec": list(map(float, dec)), "w": w, "z": z})
+    return {"base": list(base), "spacing": spacing, "centers": np.column_stack([cra, cdec]).tolist(), "cats": cats}
+
+
+def expand_counts(c):
+    """a normalised-counts case given in compact form {"expand": seed, ...} (hundreds of
+    patches) is filled with exactly representable entries from a numpy generator seeded with the
+    drawn seed; other cases are returned unchanged"""
+    if "expand" not in c:
+        return c
+    rng = np.random.default_rng(int(c["expand"]))
+    nb, P = len(c["binning"]["edges"]) - 1, int(c["npatch"])
+    counts = rng.integers(0, 64, size=(nb, P, P)) / 4.0
+    counts *= rng.random((1, P, P)) < 0.3  # sparse patch pairs
+    if c["auto"]:
+        counts = np.triu(counts)
+    w1 = rng.integers(1, 32, size=(nb, P)) / 4.0
+    w2 = w1.copy() if c["auto"] else rng.integers(1, 32, size=(nb, P)) / 4.0
+    return dict(c, counts=counts.tolist(), w1=w1.tolist(), w2=w2.tolist())
